@@ -18,7 +18,9 @@ subscription goroutine is eventually told (liveness under weak fairness); (4) re
 order (sequential loop), a subscription's notifications FIFO and gap-free, nothing overtakes the
 initial response of the message that created the subscription (without the `activated` wait TLC
 exhibits the overtaking), nothing follows the answer of the unsubscribe; (5) an oversized message
-is never answered / dispatched, the connection is closed with 1009.
+is never answered / dispatched, the connection is closed with 1009; a connection the server ends
+because it cannot serialise an answer is closed with 1011 (switch FixCloseReason: as the code is, NOT
+when the error text exceeds 123 bytes - finding ws-close:no-close-frame:reason-longer-than-123-bytes).
 
 Binding: TLC-simulated connection behaviours are replayed against a real jsonrpc.Server mounted as
 websocket handler in an in-process httptest server with a real coder/websocket client; handler
@@ -27,11 +29,13 @@ scheduler says so; every frame the client receives is compared with the frame th
 wire at that step; every exchange is also sent through HandleReader and the HTTP handler of a twin
 server.  Plus free-running stress rounds (monitor = property (2) and the ordering promises) and
 directed rounds for the races the scheduler cannot steer (shutdown / abrupt close in flight,
-read-limit boundary, two connections).
+read-limit boundary, two connections, internal-error close with short / long reason; the last one
+doubles as the probe that sets FixCloseReason for the TLC runs).
 """
 import json
 import os
 import vlib
+from vlib import log
 
 FAMILY = "ws"
 INVS = ("TypeOK POnePerFrame PContent PInvocations PWholeFrames PRespFIFO PNotesFIFO PAfterActivation "
@@ -43,11 +47,11 @@ def spec_files():
         return {"JsonRpc.tla": f.read()}
 
 
-def behaviours_of(ctx, n, depth):
+def behaviours_of(ctx, n, depth, files):
     out = []
     for i in range(n):
         rows = ctx.tlc_simulate(FAMILY, "WsConnMBT.tla", "WsConn_sim.cfg", depth=depth, seed=ctx.seed * 1000 + i,
-                                timeout=900, files=spec_files())
+                                timeout=900, files=files)
         out += [{"steps": r["steps"]} for r in rows if r.get("steps")]
     return out
 
@@ -81,13 +85,32 @@ def run(ctx):
     thorough = not ctx.quick()
     files = spec_files()
 
+    # ---- probe + directed rounds first: is the close-reason defect (still) in the code?  The answer sets the
+    # model's switch (the faithful model = the code as it is) and is itself reported with its key.
+    dres = run_engine_checked(ctx, binary, "TestWsDirected", {"seed": ctx.seed, "rounds": 60 if thorough else 10})
+    dst = dres.get("stats", {})
+    if not (dst.get("long_close_reason_dropped") or dst.get("long_close_reason_delivered")):
+        if not getattr(ctx, "g04_broken", None) and not ctx.violations:
+            raise vlib.Broken("the close-reason probe observed nothing: %s" % dst)
+    fixed_reason = not dst.get("long_close_reason_dropped")
+    log("close-reason probe: the code %s" % ("sends the close frame for long error texts (repaired)" if fixed_reason
+                                             else "drops the close frame for error texts longer than 123 bytes (as-is model)"))
+    ctx.coverage["model_switch_FixCloseReason"] = fixed_reason
+
+    def cfg_text(cfg):
+        with open(os.path.join(vlib.VERIF, "spec", FAMILY, cfg)) as f:
+            t = f.read()
+        return t.replace("FixCloseReason = FALSE", "FixCloseReason = TRUE") if fixed_reason else t
+
     def check(cfg, label, **kw):
-        return ctx.tlc_check(FAMILY, "MCWsConn.tla", cfg, files=files, label=label, **kw)
+        f = dict(files)
+        f[cfg] = cfg_text(cfg)
+        return ctx.tlc_check(FAMILY, "MCWsConn.tla", cfg, files=f, label=label, **kw)
 
     # ---- TLC: the code as it is
     r = check("WsConn_core4.cfg" if thorough else "WsConn_core3.cfg", timeout=3000, coverage=True,
               label="as-is: <= %d frames, 2 subscriptions, every completion order / notification placement" % (4 if thorough else 3))
-    vlib.require_actions_covered(r, ignore=("ClientClose", "ServerShutdown", "RespEnd", "RespFail", "TailClose", "ServerExit",
+    vlib.require_actions_covered(r, ignore=("ClientClose", "ServerShutdown", "RespEnd", "RespFail", "RespUnser", "TailClose", "ServerExit",
                                             "NoteEnd", "NoteFail", "Told", "FinishCancelled"))
     r = check("WsConn_end3.cfg" if thorough else "WsConn_end2.cfg", timeout=3000, coverage=not thorough,
               label="as-is: client close, shutdown, read limit; <= %d frames" % (3 if thorough else 2))
@@ -96,10 +119,17 @@ def run(ctx):
     r = check("WsConn_mutex4.cfg" if thorough else "WsConn_mutex3.cfg", timeout=3000, coverage=not thorough,
               label="as-is: two-step writes under the per-message mutex")
     if not thorough:
-        vlib.require_actions_covered(r, ignore=("ClientClose", "ServerShutdown", "RespFail", "TailClose", "ServerExit", "NoteFail",
+        vlib.require_actions_covered(r, ignore=("ClientClose", "ServerShutdown", "RespFail", "RespUnser", "TailClose", "ServerExit", "NoteFail",
                                                 "Told", "FinishCancelled", "GorExit", "RespNone"))
     check("WsConn_content2.cfg", timeout=3000, label="as-is: every answer class of C11 singly and in batches, <= 2 frames")
     check("WsConn_live.cfg", timeout=3000, label="as-is: every subscription goroutine is eventually told (weak fairness)")
+    # the repaired model (FixCloseReason) satisfies the promise without deviation; the as-is model must violate it
+    check("WsConn_closefixed.cfg", timeout=3000, label="repaired: internal-error close always carries 1011")
+    if not fixed_reason:
+        h = check("WsConn_pureclose.cfg", "as-is vs pure promise: PureInternalClose must fail", timeout=600, expect_violation=True)
+        if h["violated"] != "PureInternalClose":
+            raise vlib.Broken("the as-is model no longer exhibits the close-reason deviation (%s)" % h["violated"])
+        ctx.tlc_runs[-1]["expected_violation"] = "PureInternalClose"
     # ---- the switches bite: without the library's mutex / without the `activated` wait TLC shows the failure
     for cfg, inv in (("WsConn_nomutex.cfg", "PWholeFrames"), ("WsConn_noact.cfg", "PAfterActivation")):
         h = check(cfg, "switch off: %s must fail" % inv, timeout=600, expect_violation=True)
@@ -108,15 +138,15 @@ def run(ctx):
         ctx.tlc_runs[-1]["expected_violation"] = inv
 
     # ---- binding 1: replay of simulated behaviours
-    behaviours = behaviours_of(ctx, 12 if thorough else 2, 40000 if thorough else 12000)
+    sim_files = dict(files)
+    sim_files["WsConn_sim.cfg"] = cfg_text("WsConn_sim.cfg")
+    behaviours = behaviours_of(ctx, 8 if thorough else 2, 25000 if thorough else 12000, sim_files)
     res = run_engine_checked(ctx, binary, "TestWsReplay", {"behaviours": behaviours, "seed": ctx.seed})
     if res.get("replayed", 0) < 0.9 * len(behaviours) and not res.get("divergences") and not getattr(ctx, "g04_broken", None):
         raise vlib.Broken("engine replayed too little: %s of %s" % (res.get("replayed"), len(behaviours)))
     # ---- binding 2: free-running writers, monitor = frame integrity + ordering promises
     run_engine_checked(ctx, binary, "TestWsStress", {"seed": ctx.seed, "conns": 6 if thorough else 4,
                                                       "requests": 1500 if thorough else 300, "rounds": 12 if thorough else 3})
-    # ---- binding 3: the races the scheduler cannot steer
-    run_engine_checked(ctx, binary, "TestWsDirected", {"seed": ctx.seed, "rounds": 60 if thorough else 10})
 
     if getattr(ctx, "g04_broken", None) and not ctx.violations:
         raise vlib.Broken("; ".join(ctx.g04_broken))
